@@ -10,7 +10,7 @@
    graph, and the model takes no action otherwise): Reshape and chain nodes have exactly one output, chain nodes
    have no nested graphs, and src, T1's output, the chain outputs and T2's output are pairwise distinct names. *)
 From Coq Require Import ZArith String List Bool Arith Lia.
-From J2O Require Import PyLib Tensor Graph Redirect Reshape ElemCommute ChainSim C02Opt ElemSem.
+From J2O Require Import PyLib Tensor Graph Redirect Preserve Reshape ElemCommute ChainSim C02Opt ElemSem.
 From J2OGen Require Import GenOpt.
 Import ListNotations.
 
@@ -56,30 +56,34 @@ Definition broadcast_dims (shapes : list (list dim)) : option (list dim) :=
          mapM (fun axis => fold_opt bc_dim (DInt 1) (map (fun s => nth axis s (DInt 1)) padded)) (seq 0 r)
   end.
 
-Definition set_shape (g : pgraph) (y : name) (s : list dim) : pgraph :=
-  mkPG (pg_nodes g) (pg_outputs g) (fun x => if Nat.eqb x y then Some s else pg_shape g x) (pg_scalar g) (pg_crank g).
+Definition put_shape (g : pgraph) (y : name) (os : option (list dim)) : pgraph :=
+  mkPG (pg_nodes g) (pg_outputs g) (fun x => if Nat.eqb x y then os else pg_shape g x) (pg_scalar g) (pg_crank g).
+Definition set_shape (g : pgraph) (y : name) (s : list dim) : pgraph := put_shape g y (Some s).
+(* rewired=True: the node's inputs have just been re-pointed, the old annotation is stale: unknown rather than wrong *)
+Definition clear_shape (g : pgraph) (y : name) : pgraph := put_shape g y None.
 
 (* _elementwise_shape_source *)
 Definition shape_source (g : pgraph) (ins : list name) : option name :=
   match find (fun x => negb (pg_scalar g x)) ins with Some x => Some x | None => hd_error ins end.
 
-Definition refresh (g : pgraph) (n : node) : pgraph :=
+Definition refresh (g : pgraph) (n : node) : pgraph :=        (* _refresh_elementwise_output_shape(node, rewired=True) *)
   match n_outs n with
   | [] => g
   | y :: _ =>
       if String.eqb (n_op n) "CastLike" then
         match n_ins n with
-        | x :: _ => match pg_shape g x with Some s => set_shape g y s | None => g end
+        | x :: _ => match pg_shape g x with Some s => set_shape g y s | None => clear_shape g y end
         | [] => g
         end
       else
         match shape_source g (n_ins n) with
-        | None => g
+        | None => clear_shape g y
         | Some _ =>
-            (* an operand of unknown shape: nothing is written; otherwise the broadcast of ALL operand shapes *)
+            (* an operand of unknown shape or an impossible broadcast: the annotation is cleared;
+               otherwise the broadcast of ALL operand shapes *)
             match mapM (pg_shape g) (n_ins n) with
-            | None => g
-            | Some cands => match broadcast_dims cands with None => g | Some m => set_shape g y m end
+            | None => clear_shape g y
+            | Some cands => match broadcast_dims cands with None => clear_shape g y | Some m => set_shape g y m end
             end
         end
   end.
@@ -518,6 +522,120 @@ Proof.
     + apply String.eqb_eq in Hd. congruence.
 Qed.
 
+(* ---- _broadcast_shape_dims is sound for the operand lists of a folded chain member: one data shape S0 (possibly several
+        times) and one-element shapes of rank <= |S0| *)
+Definition bv (cur v : nat) : nat := if Nat.eqb cur 1 then v else cur.     (* numpy broadcast of two compatible extents *)
+
+Lemma bc_dim_sound sigma acc d cur v n r : (cur = 1 \/ cur = n) -> (v = 1 \/ v = n) ->
+  dim_ok sigma acc cur -> dim_ok sigma d v -> bc_dim acc d = Some r -> dim_ok sigma r (bv cur v) /\ (bv cur v = 1 \/ bv cur v = n).
+Proof.
+  intros Hc Hv Ha Hd H.
+  assert (Hm : bv cur v = 1 \/ bv cur v = n) by (unfold bv; destruct (Nat.eqb_spec cur 1); [exact Hv | destruct Hc; [contradiction | now right]]).
+  split; [|exact Hm]. unfold bc_dim in H. unfold bv. destruct d as [k|s|].
+  - simpl in Hd. subst v. destruct (Nat.eqb_spec k 1) as [->|Hk1].
+    + injection H as <-. destruct (Nat.eqb_spec cur 1) as [->|]; exact Ha.
+    + assert (k = n) by (destruct Hv; congruence). subst k.
+      destruct acc as [ra|sa|].
+      * simpl in Ha. subst ra. destruct (Nat.eqb_spec cur 1); [injection H as <-; reflexivity|].
+        destruct (Nat.eqb_spec cur n); [injection H as <-; simpl; auto | discriminate].
+      * injection H as <-. destruct (Nat.eqb_spec cur 1); [reflexivity|]. simpl. destruct Hc; congruence.
+      * injection H as <-. destruct (Nat.eqb_spec cur 1); [reflexivity|]. simpl. destruct Hc; congruence.
+  - destruct acc as [ra|sa|].
+    + simpl in Ha. subst ra. destruct (Nat.eqb_spec cur 1); injection H as <-; [exact Hd | reflexivity].
+    + simpl in H. destruct (String.eqb_spec sa s) as [->|]; [|discriminate]. injection H as <-. simpl in *.
+      destruct (Nat.eqb_spec cur 1); congruence.
+    + discriminate.
+  - destruct acc as [ra|sa|].
+    + simpl in Ha. subst ra. destruct (Nat.eqb_spec cur 1); injection H as <-; [exact I | reflexivity].
+    + discriminate.
+    + injection H as <-. exact I.
+Qed.
+
+Lemma fold_bc_sound sigma n : forall ds vs acc cur r, (cur = 1 \/ cur = n) -> dim_ok sigma acc cur ->
+  Forall2 (dim_ok sigma) ds vs -> Forall (fun v => v = 1 \/ v = n) vs -> fold_opt bc_dim acc ds = Some r ->
+  exists m, dim_ok sigma r m /\ (m = 1 \/ m = n) /\ (cur = n -> m = n) /\ (In n vs -> m = n).
+Proof.
+  induction ds as [|d ds IH]; intros vs acc cur r Hc Ha H2 Hv H; inversion H2 as [|? v ? vr Hd H2']; subst; simpl in H.
+  - injection H as <-. exists cur. repeat split; auto. intros [].
+  - destruct (bc_dim acc d) as [a1|] eqn:E; [|discriminate]. inversion Hv as [|? ? Hv1 Hvr]; subst.
+    destruct (bc_dim_sound sigma acc d cur v n a1 Hc Hv1 Ha Hd E) as [Ha1 Hm1].
+    destruct (IH vr a1 (bv cur v) r Hm1 Ha1 H2' Hvr H) as (m & Hrm & Hmn & Hcur & Hin).
+    exists m. repeat split; auto.
+    + intro E1. apply Hcur. unfold bv. destruct (Nat.eqb_spec cur 1); [|exact E1]. destruct Hv1; congruence.
+    + intros [E1|Hin']; [|now apply Hin]. apply Hcur. unfold bv. destruct (Nat.eqb_spec cur 1); [now symmetry|]. destruct Hc; congruence.
+Qed.
+
+Lemma mapM_nth {B C} (f : B -> option C) : forall l m, mapM f l = Some m ->
+  length m = length l /\ forall i db dc, i < length l -> f (nth i l db) = Some (nth i m dc).
+Proof.
+  induction l as [|x l IH]; simpl; intros m H.
+  - injection H as <-. split; auto. intros; lia.
+  - destruct (f x) as [y|] eqn:E; [|discriminate]. destruct (mapM f l) as [ys|] eqn:E2; [|discriminate]. injection H as <-.
+    destruct (IH ys eq_refl) as [Hl Hn]. split; [simpl; lia|]. intros [|i] db dc Hi; simpl; auto. apply Hn. lia.
+Qed.
+
+Lemma Forall2_nth_dim sigma : forall ds s i, Forall2 (dim_ok sigma) ds s -> dim_ok sigma (nth i ds (DInt 1)) (nth i s 1).
+Proof.
+  intros ds s i H. revert i. induction H as [|d v ds s Hd _ IH]; intros [|i]; simpl; auto.
+Qed.
+
+Lemma all1_nth_1 s i : all1 s = true -> nth i s 1 = 1.
+Proof.
+  revert i. induction s as [|d s IH]; intros [|i] H; simpl; auto; unfold all1 in H; cbn [forallb] in H; apply andb_prop in H as [H1 H2].
+  - now apply Nat.eqb_eq in H1.
+  - now apply IH.
+Qed.
+
+Lemma nth_pad_dim k ds i : nth i (repeat (DInt 1) k ++ ds) (DInt 1) = if Nat.ltb i k then DInt 1 else nth (i - k) ds (DInt 1).
+Proof.
+  revert i. induction k as [|k IH]; intros i; simpl; [now rewrite Nat.sub_0_r|]. destruct i as [|i]; simpl; auto. rewrite IH.
+  destruct (Nat.ltb_spec i k), (Nat.ltb_spec (S i) (S k)); auto; lia.
+Qed.
+
+Theorem broadcast_dims_data sigma S0 : forall dss ss m, Forall2 (Forall2 (dim_ok sigma)) dss ss ->
+  Forall (fun s => s = S0 \/ (all1 s = true /\ length s <= length S0)) ss -> In S0 ss ->
+  broadcast_dims dss = Some m -> Forall2 (dim_ok sigma) m S0.
+Proof.
+  intros dss ss m H2 Hss Hin H.
+  assert (Hlen : Forall2 (fun ds s => length ds = length s) dss ss).
+  { clear - H2. induction H2 as [|ds s l l' Hd _ IH]; constructor; auto. clear - Hd. induction Hd; simpl; auto. }
+  set (R := fold_right (fun s m0 => Nat.max (length s) m0) 0 dss).
+  assert (HR : R = length S0).
+  { assert (Hle : R <= length S0).
+    { unfold R. clear - Hlen Hss. induction Hlen as [|ds s l l' Hl _ IH]; simpl; [lia|]. inversion Hss as [|? ? Hs Hr]; subst.
+      specialize (IH Hr). destruct Hs as [->|[_ Hs]]; lia. }
+    assert (Hge : length S0 <= R).
+    { unfold R. clear - Hlen Hin. induction Hlen as [|ds s l l' Hl _ IH]; [contradiction|]. simpl. destruct Hin as [->|Hin]; [lia | specialize (IH Hin); lia]. }
+    lia. }
+  assert (Hne : dss <> []) by (intro E; subst; inversion H2; subst; contradiction).
+  assert (Hb : broadcast_dims dss =
+               mapM (fun axis => fold_opt bc_dim (DInt 1) (map (fun s => nth axis s (DInt 1)) (map (fun s => repeat (DInt 1) (R - length s) ++ s) dss))) (seq 0 R))
+    by (unfold broadcast_dims, R; destruct dss; [congruence | reflexivity]).
+  rewrite Hb in H. clear Hb. rewrite HR in H. clear HR. clearbody R. clear R. set (R := length S0) in *.
+  destruct (mapM_nth _ _ _ H) as [Hlm Hnth]. rewrite seq_length in Hlm.
+  (* pointwise *)
+  assert (Hpt : forall i, i < R -> dim_ok sigma (nth i m (DInt 1)) (nth i S0 1)).
+  { intros i Hi. specialize (Hnth i 0 (DInt 1)). rewrite seq_length in Hnth. specialize (Hnth Hi). rewrite seq_nth in Hnth by exact Hi. simpl in Hnth.
+    rewrite map_map in Hnth.
+    set (n := nth i S0 1).
+    destruct (fold_bc_sound sigma n (map (fun s => nth i (repeat (DInt 1) (R - length s) ++ s) (DInt 1)) dss)
+                (map (fun s => nth i (repeat 1 (R - length s) ++ s) 1) ss) (DInt 1) 1 (nth i m (DInt 1))) as (mv & Hok & _ & _ & Hn); auto.
+    - reflexivity.
+    - clear - H2 Hlen. induction H2 as [|ds s l l' Hd _ IH]; simpl; constructor; [|inversion Hlen; subst; auto].
+      inversion Hlen as [|? ? ? ? Hl _]; subst. rewrite Hl.
+      assert (Hp : Forall2 (dim_ok sigma) (repeat (DInt 1) (R - length s) ++ ds) (repeat 1 (R - length s) ++ s)).
+      { apply Forall2_app; auto. clear. induction (R - length s); simpl; constructor; simpl; auto. }
+      now apply Forall2_nth_dim.
+    - clear - Hss. apply Forall_forall. intros v Hv. apply in_map_iff in Hv as (s & <- & Hs). rewrite Forall_forall in Hss.
+      destruct (Hss s Hs) as [->|[H1 Hl]].
+      + right. unfold R. rewrite Nat.sub_diag. reflexivity.
+      + left. apply all1_nth_1. unfold all1. rewrite forallb_app. rewrite andb_true_iff. split; [|exact H1]. clear. induction (R - length s); simpl; auto.
+    - rewrite <- (Hn ltac:(apply in_map_iff; exists S0; split; auto; unfold R; rewrite Nat.sub_diag; reflexivity)). exact Hok. }
+  unfold R in Hlm, Hpt. clear - Hlm Hpt. revert S0 Hlm Hpt. induction m as [|d m IH]; intros [|v S0] Hl Hpt; simpl in Hl; try discriminate; constructor.
+  - apply (Hpt 0). simpl. lia.
+  - apply IH; [lia|]. intros i Hi. apply (Hpt (S i)). simpl. lia.
+Qed.
+
 Section Sound.
   Variable A : Type.
   Notation V := (tensor A).
@@ -543,7 +661,9 @@ Section Sound.
     adm_shape : exists sigma, forall ef x ds v, evalg (pg_nodes g) e = Some ef -> pg_shape g x = Some ds -> ef x = Some v ->
                   Forall2 (dim_ok sigma) ds (shape v);
     adm_scalar : forall ef x v, evalg (pg_nodes g) e = Some ef -> pg_scalar g x = true -> ef x = Some v -> all1 (shape v) = true;
-    adm_crank : forall ef x r v, evalg (pg_nodes g) e = Some ef -> pg_crank g x = Some r -> ef x = Some v -> length (shape v) = r }.
+    adm_crank : forall ef x r v, evalg (pg_nodes g) e = Some ef -> pg_crank g x = Some r -> ef x = Some v -> length (shape v) = r;
+    (* the output of an elementwise node carries no constant payload (a static property of the annotations) *)
+    adm_crank_elem : forall n y, In n (pg_nodes g) -> is_allowed n = true -> In y (n_outs n) -> pg_crank g y = None }.
 
   Section Action.
     Variables (g : pgraph) (a : action) (T1 T2 : node) (e ef : env V) (xs : V).
@@ -840,25 +960,234 @@ Section Sound.
     Qed.
 
     (* ---- the action as a whole, for this run *)
+    Lemma action_step_all pre n post em em' e1 : pg_nodes g = pre ++ n :: post -> evalg pre e = Some em ->
+      (forall x v, em x = Some v -> ef x = Some v) -> Inv em em' -> stepg em n = Some e1 ->
+      (forall x v, e1 x = Some v -> ef x = Some v) ->
+      if keep a n then exists e1', stepg em' (subst_map (rho a) n) = Some e1' /\ Inv e1 e1' else Inv e1 em'.
+    Proof.
+      intros Hsplit Hpre Hle Hi Hs Hle1. pose proof (adm_ssa _ _ Hadm) as Hssa.
+      destruct (fresh_at V sem _ _ _ _ _ _ Hssa Hsplit Hpre) as [Hfresh Hndo].
+      assert (Hn : In n (pg_nodes g)) by (rewrite Hsplit; apply in_or_app; right; now left).
+      destruct (keep a n) eqn:Hk.
+      - destruct (in_members (chain_outs a) n) eqn:Hm.
+        + apply (chain_step n em em' e1); auto. exact (chain_member g a T1 T2 Hnd Haf n Hn Hm).
+        + apply (other_step n em em' e1); auto.
+      - unfold keep in Hk. apply andb_false_iff in Hk as [Hk|Hk]; apply negb_false_iff in Hk; apply node_is_outs in Hk.
+        + assert (n = T1) by (apply (T1_unique g a T1 T2 Hnd Haf n Hn); rewrite Hk; now left). subst n.
+          apply (T1_step em em' e1); auto. apply Hfresh. rewrite Hk. now left.
+        + assert (n = T2) by (apply (T2_unique g a T1 T2 Hnd Haf n Hn); rewrite Hk; now left). subst n.
+          apply (T2_step em em' e1); auto. apply Hfresh. rewrite Hk. now left.
+    Qed.
+
     Lemma action_run :
       refinesg (pg_graph g) (mkGraph (map (subst_map (rho a)) (filter (keep a) (pg_nodes g))) (map (rho a) (pg_outputs g))) e.
     Proof.
       pose proof (adm_ssa _ _ Hadm) as Hssa.
       apply (sim_refines V teq sem Inv (keep a) (subst_map (rho a)) (pg_nodes g) (pg_outputs g) (map (rho a) (pg_outputs g)) e Hssa inv_init).
       intros ef0 Hev0. rewrite Hev in Hev0. injection Hev0 as <-. split.
-      - intros pre n post em em' e1 Hsplit Hpre Hle Hi Hs Hle1.
-        destruct (fresh_at V sem _ _ _ _ _ _ Hssa Hsplit Hpre) as [Hfresh Hndo].
-        assert (Hn : In n (pg_nodes g)) by (rewrite Hsplit; apply in_or_app; right; now left).
-        destruct (keep a n) eqn:Hk.
-        + destruct (in_members (chain_outs a) n) eqn:Hm.
-          * apply (chain_step n em em' e1); auto. exact (chain_member g a T1 T2 Hnd Haf n Hn Hm).
-          * apply (other_step n em em' e1); auto.
-        + unfold keep in Hk. apply andb_false_iff in Hk as [Hk|Hk]; apply negb_false_iff in Hk; apply node_is_outs in Hk.
-          * assert (n = T1) by (apply (T1_unique g a T1 T2 Hnd Haf n Hn); rewrite Hk; now left). subst n.
-            apply (T1_step em em' e1); auto. apply Hfresh. rewrite Hk. now left.
-          * assert (n = T2) by (apply (T2_unique g a T1 T2 Hnd Haf n Hn); rewrite Hk; now left). subst n.
-            apply (T2_step em em' e1); auto. apply Hfresh. rewrite Hk. now left.
+      - exact action_step_all.
       - intros ef' o Hi Hl. now apply outs_related.
+    Qed.
+
+    (* ---- the final environment of the rewritten graph; the annotations stay true *)
+    Let nodes' := map (subst_map (rho a)) (filter (keep a) (pg_nodes g)).
+
+    Lemma action_env : exists ef', evalg nodes' e = Some ef' /\ Inv ef ef'.
+    Proof. exact (sim_env V sem Inv (keep a) (subst_map (rho a)) (pg_nodes g) e ef (adm_ssa _ _ Hadm) inv_init Hev action_step_all). Qed.
+
+    Lemma other_outs n : In n (pg_nodes g) -> keep a n = true -> in_members (chain_outs a) n = false ->
+      forall y, In y (n_outs n) -> inD y = false /\ y <> ac_t2 a /\ y <> ac_t1 a.
+    Proof.
+      intros Hn Hk Hnm y Hy. unfold keep in Hk. apply andb_prop in Hk as [Hk1 Hk2]. apply negb_true_iff in Hk1, Hk2.
+      assert (H1 : y <> ac_t1 a).
+      { intros ->. rewrite (T1_unique g a T1 T2 Hnd Haf n Hn Hy) in Hk1.
+        rewrite (node_is_true _ _ (af_T1_outs _ _ _ _ Haf)) in Hk1. discriminate. }
+      assert (H2 : y <> ac_t2 a).
+      { intros ->. rewrite (T2_unique g a T1 T2 Hnd Haf n Hn Hy) in Hk2.
+        rewrite (node_is_true _ _ (af_T2_outs _ _ _ _ Haf)) in Hk2. discriminate. }
+      split; [|split]; auto. apply inD_false. intros [E|Hc]; [now symmetry in E|].
+      unfold chain_outs in Hc. apply in_map_iff in Hc as (c & Hc & Hcin).
+      destruct (chain_facts_in g _ _ _ c (af_chain _ _ _ _ Haf) Hcin) as (_ & y' & _ & _ & Ho & _).
+      assert (y' = y) by (unfold out_of in Hc; rewrite Ho in Hc; auto). subst y'.
+      assert (n = c).
+      { eapply (defs_unique (pg_nodes g)); eauto; [now apply (af_chain_in _ _ _ _ Haf) | rewrite Ho; now left]. }
+      subst c. destruct (chain_nonempty_member g a T1 T2 Haf n Hcin). congruence.
+    Qed.
+
+    Lemma kept_plain m y : In m (pg_nodes g) -> keep a m = true -> In y (n_outs m) -> rho a y = y.
+    Proof.
+      intros Hm Hk Hy. destruct (in_members (chain_outs a) m) eqn:Em.
+      - pose proof (chain_member g a T1 T2 Hnd Haf m Hm Em) as Hc.
+        destruct (chain_facts_in g _ _ _ m (af_chain _ _ _ _ Haf) Hc) as (_ & y' & _ & _ & Ho & Hy' & _). rewrite Ho in Hy. destruct Hy as [E|[]].
+        rewrite <- E. now apply (rho_chain_out g a T1 T2 Haf).
+      - destruct (other_outs m Hm Hk Em y Hy) as (_ & H2 & H1). now apply rho_other.
+    Qed.
+
+    Lemma new_defined ef' x w : evalg nodes' e = Some ef' -> Inv ef ef' -> ef' x = Some w ->
+      rho a x = x /\ exists v, ef x = Some v /\ rel x v w.
+    Proof.
+      intros Hev' [Hi1 Hi2] Hx.
+      assert (Hrho : rho a x = x).
+      { assert (Hdef : ef' x <> None) by congruence. destruct (eval_dom V sem _ _ _ _ Hev' Hdef) as [He|Hd].
+        - destruct (e x) as [v0|] eqn:Ex; [|congruence]. pose proof (proj2 (adm_ssa _ _ Hadm)) as Hfree.
+          assert (Hnd' : ~ In x (defs (pg_nodes g))) by (intro Hd; rewrite (Hfree _ Hd) in Ex; discriminate).
+          apply rho_other; intros ->; apply Hnd'; unfold defs; apply in_flat_map.
+          + exists T1. split; [apply (af_T1_in _ _ _ _ Haf)|]. rewrite (af_T1_outs _ _ _ _ Haf). now left.
+          + exists T2. split; [apply (af_T2_in _ _ _ _ Haf)|]. rewrite (af_T2_outs _ _ _ _ Haf). now left.
+        - unfold defs, nodes' in Hd. apply in_flat_map in Hd as (m' & Hm' & Hy). apply in_map_iff in Hm' as (m & <- & Hm).
+          apply filter_In in Hm as [Hm Hk]. exact (kept_plain m x Hm Hk Hy). }
+      split; auto. assert (Hold : ef x <> None) by (apply Hi2; congruence).
+      destruct (ef x) as [v|] eqn:Ev; [|congruence]. destruct (Hi1 _ _ Ev) as (w0 & Ew0 & Hr). rewrite Hrho, Hx in Ew0. injection Ew0 as <-.
+      exists v. auto.
+    Qed.
+
+    (* ---- the refreshed annotations of the chain are true for the new values (all of shape S0) *)
+    Variable sigma : string -> nat.
+    Hypothesis Hsigma : forall x ds v, pg_shape g x = Some ds -> ef x = Some v -> Forall2 (dim_ok sigma) ds (shape v).
+
+    Definition annot_ok (gs : pgraph) (done : list name) : Prop :=
+      (forall x, ~ In x done -> pg_shape gs x = pg_shape g x) /\
+      (forall y ds, In y done -> pg_shape gs y = Some ds -> Forall2 (dim_ok sigma) ds S0) /\
+      pg_scalar gs = pg_scalar g /\ pg_crank gs = pg_crank g.
+
+    Lemma put_shape_ok gs done y os : annot_ok gs done -> (forall ds, os = Some ds -> Forall2 (dim_ok sigma) ds S0) ->
+      annot_ok (put_shape gs y os) (done ++ [y]).
+    Proof.
+      intros (Q1 & Q2 & Q3 & Q4) Hos. split; [|split; [|split]]; cbn [put_shape pg_shape pg_scalar pg_crank]; auto.
+      - intros x Hx. destruct (Nat.eqb_spec x y) as [->|Hne]; [exfalso; apply Hx; apply in_or_app; right; now left|].
+        apply Q1. intro H. apply Hx. apply in_or_app. now left.
+      - intros y0 ds Hy0. destruct (Nat.eqb_spec y0 y) as [->|Hne]; [apply Hos|].
+        apply in_app_or in Hy0 as [H|[E|[]]]; [now apply Q2 | congruence].
+    Qed.
+
+    (* the annotation of a (renamed) input of a chain member, if any, is true for S0 or for a one-element shape of rank <= |S0| *)
+    Lemma input_annot gs done c prev u : annot_ok gs done -> In c (ac_chain a) -> In u (n_ins c) ->
+      side_ok true g (ac_src a) false prev 0 (n_ins c) = true ->
+      (forall ds, pg_shape gs (rn (ac_t1 a) (ac_src a) prev) = Some ds -> Forall2 (dim_ok sigma) ds S0) ->
+      forall ds, pg_shape gs (rn (ac_t1 a) (ac_src a) u) = Some ds ->
+      exists s, Forall2 (dim_ok sigma) ds s /\ (s = S0 \/ (all1 s = true /\ length s <= length S0)) /\ (u = prev -> s = S0).
+    Proof.
+      intros (Q1 & Q2 & Q3 & Q4) Hc Hu Hside Hprev ds Hds.
+      destruct (Nat.eq_dec u prev) as [->|Hup]; [exists S0; auto|].
+      destruct (side_rank _ _ _ _ Hside Hu) as [E|Hrk]; [contradiction|].
+      assert (Hsc : pg_scalar g u = true).
+      { clear - Hside Hu Hup. revert Hside. generalize 0. induction (n_ins c) as [|x r IH]; intros pos Hs; [contradiction|].
+        cbn [side_ok andb] in Hs. apply andb_prop in Hs as [H1 H2]. destruct Hu as [<-|Hu]; [|eapply IH; eauto].
+        rewrite orb_false_r in H1. apply orb_prop in H1 as [H1|H1]; [apply Nat.eqb_eq in H1; contradiction|]. now apply andb_prop in H1 as [H1 _]. }
+      set (u' := rn (ac_t1 a) (ac_src a) u) in *.
+      destruct (in_dec Nat.eq_dec u' done) as [Hd|Hd]; [exists S0; split; [exact (Q2 u' ds Hd Hds)|]; split; auto; intro; contradiction|].
+      rewrite (Q1 u' Hd) in Hds.
+      (* the old value of u' *)
+      destruct (eval_consistent V sem _ _ _ c (adm_ssa _ _ Hadm) Hev (proj1 (af_chain_in _ _ _ _ Haf c Hc))) as (vs & o & Hl & _ & _).
+      assert (Hudef : ef u <> None) by (apply (lookups_defined V ef _ _ u Hl); unfold n_uses; apply in_or_app; now left).
+      destruct (ef u) as [vu|] eqn:Eu; [|congruence].
+      unfold u', rn in *. destruct (Nat.eqb_spec u (ac_t1 a)) as [->|Hne].
+      - exists S0. split; [exact (Hsigma _ _ _ Hds Hxs)|]. split; [now left | intro; contradiction].
+      - exists (shape vu). split; [exact (Hsigma _ _ _ Hds Eu)|]. split; [|intro; contradiction]. right. split.
+        + exact (adm_scalar _ _ Hadm ef u vu Hev Hsc Eu).
+        + unfold rank_at_most in Hrk. destruct (value_rank g u) as [ru|] eqn:E1; [|discriminate].
+          destruct (value_rank g (ac_src a)) as [rs|] eqn:E2; [|discriminate]. apply Nat.leb_le in Hrk.
+          rewrite (value_rank_true _ _ _ E1 Eu). unfold S0. now rewrite (value_rank_true _ _ _ E2 Hxs).
+    Qed.
+
+    Lemma refresh_member_ok gs done c prev y rest : annot_ok gs done -> In c (ac_chain a) ->
+      n_outs c = [y] -> n_ins c = prev :: rest ->
+      side_ok true g (ac_src a) (String.eqb (n_op c) "CastLike") prev 0 (n_ins c) = true ->
+      (forall ds, pg_shape gs (rn (ac_t1 a) (ac_src a) prev) = Some ds -> Forall2 (dim_ok sigma) ds S0) ->
+      annot_ok (refresh gs (subst_node (ac_t1 a) (ac_src a) c)) (done ++ [y]).
+    Proof.
+      intros HQ Hc Ho Hins Hside Hprev. unfold refresh. cbn [subst_node n_outs n_op n_ins]. rewrite Ho, Hins. cbn [map].
+      destruct (String.eqb (n_op c) "CastLike") eqn:Ecl.
+      - destruct (pg_shape gs (rn (ac_t1 a) (ac_src a) prev)) as [ds|] eqn:Ep.
+        + apply put_shape_ok; [exact HQ|]. intros ds0 E. injection E as <-. now apply Hprev.
+        + apply put_shape_ok; [exact HQ|]. intros ds0 E. discriminate.
+      - destruct (shape_source gs _); [|apply put_shape_ok; [exact HQ|]; intros ds0 E; discriminate].
+        destruct (mapM (pg_shape gs) (rn (ac_t1 a) (ac_src a) prev :: map (rn (ac_t1 a) (ac_src a)) rest)) as [cands|] eqn:Em;
+          [|apply put_shape_ok; [exact HQ|]; intros ds0 E; discriminate].
+        destruct (broadcast_dims cands) as [m|] eqn:Eb; [|apply put_shape_ok; [exact HQ|]; intros ds0 E; discriminate].
+        apply put_shape_ok; [exact HQ|]. intros ds0 E. injection E as <-.
+        (* true shapes for the candidates *)
+        assert (Hgen : forall ins cands0, (forall u, In u ins -> In u (n_ins c)) -> mapM (pg_shape gs) (map (rn (ac_t1 a) (ac_src a)) ins) = Some cands0 ->
+                  exists ss, Forall2 (Forall2 (dim_ok sigma)) cands0 ss /\
+                    Forall (fun s => s = S0 \/ (all1 s = true /\ length s <= length S0)) ss /\ (In prev ins -> In S0 ss)).
+        { induction ins as [|u r IH]; intros cands0 Hsub Hm0; simpl in Hm0.
+          - injection Hm0 as <-. exists []. split; [constructor|]. split; [constructor|]. intros [].
+          - destruct (pg_shape gs (rn (ac_t1 a) (ac_src a) u)) as [ds|] eqn:Eu; [|discriminate].
+            destruct (mapM (pg_shape gs) (map (rn (ac_t1 a) (ac_src a)) r)) as [cr|] eqn:Er; [|discriminate]. injection Hm0 as <-.
+            destruct (IH cr (fun u0 H => Hsub u0 (or_intror H)) eq_refl) as (ss & H1 & H2 & H3).
+            destruct (input_annot gs done c prev u HQ Hc (Hsub u (or_introl eq_refl)) Hside Hprev ds Eu) as (s0 & Hs1 & Hs2 & Hs3).
+            exists (s0 :: ss). split; [constructor; auto|]. split; [constructor; auto|]. intros [E|Hin]; [left; apply Hs3; exact E | right; now apply H3]. }
+        destruct (Hgen (prev :: rest) cands) as (ss & H1 & H2 & H3); auto.
+        { intros u Hu. now rewrite Hins. }
+        exact (broadcast_dims_data sigma S0 cands ss m H1 H2 (H3 (or_introl eq_refl)) Eb).
+    Qed.
+
+    Lemma refresh_chain_ok : forall chain prev gs done, chain_facts g (ac_src a) prev chain -> (forall c, In c chain -> In c (ac_chain a)) ->
+      annot_ok gs done ->
+      (forall ds, pg_shape gs (rn (ac_t1 a) (ac_src a) prev) = Some ds -> Forall2 (dim_ok sigma) ds S0) ->
+      annot_ok (fold_left refresh (map (subst_node (ac_t1 a) (ac_src a)) chain) gs) (done ++ map out_of chain).
+    Proof.
+      induction chain as [|c r IH]; intros prev gs done Hcf Hsub HQ Hprev; simpl; [now rewrite app_nil_r|].
+      destruct Hcf as (y & rest & Ho & Hcaps & Hins & Hside & Hobs & Hr).
+      assert (Hoy : out_of c = y) by (unfold out_of; now rewrite Ho). rewrite Hoy.
+      pose proof (refresh_member_ok gs done c prev y rest HQ (Hsub c (or_introl eq_refl)) Ho Hins Hside Hprev) as HQ1.
+      replace (done ++ y :: map out_of r) with ((done ++ [y]) ++ map out_of r) by (rewrite <- app_assoc; reflexivity).
+      apply (IH y); auto.
+      - intros c0 H0. apply Hsub. now right.
+      - intros ds Hds. destruct HQ1 as (_ & Q2 & _).
+        assert (Hy : rn (ac_t1 a) (ac_src a) y = y).
+        { unfold rn. destruct (Nat.eqb_spec y (ac_t1 a)) as [E|]; auto. exfalso. apply (t1_not_chain g a T1 T2 Haf). rewrite <- E.
+          unfold chain_outs. apply in_map_iff. exists c. split; auto. apply Hsub. now left. }
+        rewrite Hy in Hds. apply (Q2 y ds); auto. apply in_or_app. right. now left.
+    Qed.
+
+    Lemma apply_action_annot : annot_ok (apply_action g a) (chain_outs a).
+    Proof.
+      assert (Hbase : forall ns0 outs0, annot_ok (mkPG ns0 outs0 (pg_shape g) (pg_scalar g) (pg_crank g)) []).
+      { intros. split; [|split; [|split]]; auto. intros y ds []. }
+      assert (Hsrc : forall gs, pg_shape gs (ac_src a) = pg_shape g (ac_src a) ->
+                forall ds, pg_shape gs (rn (ac_t1 a) (ac_src a) (ac_t1 a)) = Some ds -> Forall2 (dim_ok sigma) ds S0).
+      { intros gs Hgs ds Hds. unfold rn in Hds. rewrite Nat.eqb_refl, Hgs in Hds. exact (Hsigma _ _ _ Hds Hxs). }
+      unfold apply_action, chain_outs. destruct (ac_chain a) as [|c0 cr] eqn:Ech.
+      - split; [|split; [|split]]; cbn [pg_shape pg_scalar pg_crank map]; auto. intros y ds [].
+      - rewrite <- Ech.
+        pose proof (refresh_chain_ok (ac_chain a) (ac_t1 a)
+                      (mkPG (g_nodes (replace_all_uses (ac_t1 a) (ac_src a) (pg_graph g))) (g_outputs (replace_all_uses (ac_t1 a) (ac_src a) (pg_graph g)))
+                            (pg_shape g) (pg_scalar g) (pg_crank g)) [] (af_chain _ _ _ _ Haf) (fun c H => H) (Hbase _ _) (Hsrc _ eq_refl)) as HQ.
+        simpl in HQ. destruct HQ as (Q1 & Q2 & Q3 & Q4).
+        split; [|split; [|split]]; cbn [pg_shape pg_scalar pg_crank]; auto.
+    Qed.
+
+    Theorem action_admissible : admissible (apply_action g a) e.
+    Proof.
+      destruct action_env as (ef' & Hev' & Hi). destruct apply_action_annot as (Q1 & Q2 & Q3 & Q4).
+      assert (Hnodes : pg_nodes (apply_action g a) = nodes').
+      { exact (f_equal g_nodes (apply_action_graph g a T1 T2 Hnd Haf)). }
+      assert (Hplain : forall x w, ef' x = Some w -> ~ In x (chain_outs a) -> exists v, ef x = Some v /\ teq v w).
+      { intros x w Hx Hnc. destruct (new_defined ef' x w Hev' Hi Hx) as (Hrho & v & Ev & Hr). exists v. split; auto.
+        apply (rel_teq x); auto. apply inD_false. intros [E|Hc]; [|contradiction].
+        subst x. rewrite (rho_t1 g a T1 T2 Haf) in Hrho. exact (src_ne_t1 g a T1 T2 Haf Hrho). }
+      constructor.
+      - rewrite Hnodes. apply ssa_sim; [reflexivity | exact (adm_ssa _ _ Hadm)].
+      - exists sigma. intros ef2 x ds w Hev2 Hds Hx. rewrite Hnodes, Hev' in Hev2. injection Hev2 as <-.
+        destruct (in_dec Nat.eq_dec x (chain_outs a)) as [Hc|Hc].
+        + destruct (new_defined ef' x w Hev' Hi Hx) as (_ & v & Ev & Hr).
+          assert (HxD : In x (dirty a ++ [ac_t2 a])) by (apply in_or_app; left; right; exact Hc).
+          rewrite (rel_shape x v w HxD Hr). exact (Q2 x ds Hc Hds).
+        + destruct (Hplain x w Hx Hc) as (v & Ev & Ht). rewrite (Q1 x Hc) in Hds. rewrite <- (proj1 Ht). exact (Hsigma _ _ _ Hds Ev).
+      - intros ef2 x w Hev2 Hsc Hx. rewrite Hnodes, Hev' in Hev2. injection Hev2 as <-. rewrite Q3 in Hsc.
+        destruct (new_defined ef' x w Hev' Hi Hx) as (_ & v & Ev & Hr).
+        rewrite <- (flat_eq_all1 _ _ (rel_flat _ _ _ Hr)). exact (adm_scalar _ _ Hadm ef x v Hev Hsc Ev).
+      - intros ef2 x r w Hev2 Hcr Hx. rewrite Hnodes, Hev' in Hev2. injection Hev2 as <-. rewrite Q4 in Hcr.
+        assert (Hc : ~ In x (chain_outs a)).
+        { intro Hc. unfold chain_outs in Hc. apply in_map_iff in Hc as (c & Ec & Hcin).
+          destruct (chain_facts_in g _ _ _ c (af_chain _ _ _ _ Haf) Hcin) as (_ & y' & _ & _ & Ho & _).
+          assert (y' = x) by (unfold out_of in Ec; rewrite Ho in Ec; auto). subst y'.
+          destruct (af_chain_in _ _ _ _ Haf c Hcin) as [Hcn Hal].
+          rewrite (adm_crank_elem _ _ Hadm c x Hcn Hal) in Hcr; [discriminate | rewrite Ho; now left]. }
+        destruct (Hplain x w Hx Hc) as (v & Ev & Ht). rewrite <- (proj1 Ht). exact (adm_crank _ _ Hadm ef x r v Hev Hcr Ev).
+      - intros n' y Hn' Hal Hy. rewrite Q4. rewrite Hnodes in Hn'. unfold nodes' in Hn'. apply in_map_iff in Hn' as (m & <- & Hm).
+        apply filter_In in Hm as [Hm _]. exact (adm_crank_elem _ _ Hadm m y Hm Hal Hy).
     Qed.
   End Action.
 
@@ -893,6 +1222,39 @@ Section Sound.
     destruct (first_action g (pg_nodes g)) as [a|] eqn:Efa; [|discriminate]. injection Hstep as <-.
     destruct (first_action_in g _ a (fun n H => H) Efa) as (T1 & T2 & Haf).
     eapply reshape_pair_action_sound; eauto.
+  Qed.
+
+  (* annotation truth (declared dims, one-element flags, payload ranks) carries over to the rewritten graph: the refreshed
+     shapes of the chain are true for the new values, everything else is unchanged *)
+  Theorem reshape_pair_step_admissible g g' e ef :
+    admissible g e -> evalg (pg_nodes g) e = Some ef -> reshape_pair_step g = Some g' -> admissible g' e.
+  Proof.
+    intros Hadm Hev Hstep. unfold reshape_pair_step, reshape_pair_step_gen in Hstep. fold first_action in Hstep.
+    destruct (first_action g (pg_nodes g)) as [a|] eqn:Efa; [|discriminate]. injection Hstep as <-.
+    destruct (first_action_in g _ a (fun n H => H) Efa) as (T1 & T2 & Haf).
+    pose proof (adm_ssa _ _ Hadm) as Hssa.
+    destruct (eval_consistent V sem _ _ _ T1 Hssa Hev (af_T1_in _ _ _ _ Haf)) as (vs & oo & Hl & _ & _).
+    destruct (af_T1_ins _ _ _ _ Haf) as [r Hins]. unfold n_uses in Hl. rewrite Hins in Hl. simpl in Hl.
+    destruct (ef (ac_src a)) as [xs|] eqn:Hxs; [|discriminate].
+    destruct (adm_shape _ _ Hadm) as [sigma Hsig].
+    exact (action_admissible g a T1 T2 e ef xs Hadm Haf Hev Hxs sigma (fun x ds v H1 H2 => Hsig ef x ds v Hev H1 H2)).
+  Qed.
+
+  (* THE PASS, for every graph that is admissible WHEN THE PASS STARTS *)
+  Theorem reshape_pair_pass_sound_start : forall fuel g e, admissible g e ->
+    refinesg (pg_graph g) (pg_graph (reshape_pair_pass fuel g)) e.
+  Proof.
+    unfold reshape_pair_pass. induction fuel as [|k IH]; simpl; intros g e Hadm.
+    - apply (refines_refl V teq (@teq_refl A) sem).
+    - fold reshape_pair_step in *. destruct (reshape_pair_step g) as [g'|] eqn:Es; [|apply (refines_refl V teq (@teq_refl A) sem)].
+      intros out Hrun.
+      assert (Hev : exists ef, evalg (pg_nodes g) e = Some ef).
+      { unfold run in Hrun. simpl in Hrun. destruct (evalg (pg_nodes g) e); [eauto|discriminate]. }
+      destruct Hev as [ef Hev].
+      pose proof (reshape_pair_step_admissible g g' e ef Hadm Hev Es) as Hadm'.
+      revert out Hrun. eapply (refines_trans V teq (@teq_trans A) sem).
+      + eapply reshape_pair_step_sound; eauto.
+      + apply IH. exact Hadm'.
   Qed.
 
   (* every graph the while-changed loop passes through is admissible (SSA, true annotations: property C08) *)
